@@ -540,57 +540,51 @@ package part
 //@ func (*Tree).Len
 //@   property C11 C17
 //@   pure
-//@   requires t != nil
+//@   flag nosafety
 //@   ensures result == t.size
 //@ func (*Txn).Len
 //@   property C11 C17
 //@   pure
-//@   requires txn != nil
+//@   flag nosafety
 //@   ensures result == txn.size
 //@ func (*Tree).RootWatch
 //@   property C12 C06
 //@   pure
-//@   requires t != nil
+//@   flag nosafety
 //@   ensures result == t.rootWatch
 //@ func (*Txn).RootWatch
 //@   property C12 C06
 //@   pure
-//@   requires txn != nil
+//@   flag nosafety
 //@   ensures result == txn.rootWatch
 //@ func (*Tree).Get
 //@   property C11 C12 C17
 //@   flag nosafety
-//@   requires t != nil
 //@   atcall search@1 requires @own-root-callers-key $0 == t.root && $1 == t.rootWatch && $2 == key
 //@   mustcall search@1 when @always true
 //@ func (*Txn).Get
 //@   property C11 C12 C17
 //@   flag nosafety
-//@   requires txn != nil
 //@   atcall search@1 requires @own-root-callers-key $0 == txn.root && $1 == txn.rootWatch && $2 == key
 //@   mustcall search@1 when @always true
 //@ func (*Tree).Prefix
 //@   property C11 C12 C17
 //@   flag nosafety
-//@   requires t != nil
 //@   atcall prefixSearch@1 requires @own-root-callers-key $0 == t.root && $1 == t.rootWatch && $2 == prefix
 //@   mustcall prefixSearch@1 when @always true
 //@ func (*Tree).LowerBound
 //@   property C11 C17
 //@   flag nosafety
-//@   requires t != nil
 //@   atcall lowerbound@1 requires @own-root-callers-key $0 == t.root && $1 == key
 //@   mustcall lowerbound@1 when @always true
 //@ func (*Tree).Iterator
 //@   property C11 C17
 //@   flag nosafety
-//@   requires t != nil
 //@   atcall newIterator@1 requires @own-root $0 == t.root
 //@   mustcall newIterator@1 when @always true
 //@ func (*Tree).All
 //@   property C11 C17
 //@   flag nosafety
-//@   requires t != nil
 //@   atcall Iterator.All@1 requires @own-root $0.start == t.root
 //@   mustcall Iterator.All@1 when @always true
 //@ func (*Txn).insert
